@@ -569,6 +569,7 @@ class LockPatcher:
         self.sched = None
         self.locks = []
         self.replaced = []
+        self.factories_installed = False
 
     def _ref(self):
         return self.sched
@@ -578,9 +579,13 @@ class LockPatcher:
         self.locks.append(lk)
         return lk
 
-    def install(self):
-        lock_t = type(_REAL_LOCK())
-        rlock_t = type(_REAL_RLOCK())
+    def install_factories(self):
+        """Idempotent. Called *before* adaptix is imported, so that every lock adaptix code ever creates —
+        at import time in class-level provider instances, during the warm-up in the parent, in retort
+        constructors — is simulated, in every process image."""
+        if self.factories_installed:
+            return
+        self.factories_installed = True
 
         def factory(reentrant):
             real = _REAL_RLOCK if reentrant else _REAL_LOCK
@@ -592,9 +597,30 @@ class LockPatcher:
                 return real(*a, **k)
             return make
 
-        sim_lock_factory, sim_rlock_factory = factory(False), factory(True)
-        threading.Lock = sim_lock_factory
-        threading.RLock = sim_rlock_factory
+        self.sim_lock_factory, self.sim_rlock_factory = factory(False), factory(True)
+        threading.Lock = self.sim_lock_factory
+        threading.RLock = self.sim_rlock_factory
+        # a reference to the original threading.RLock function (e.g. the default factory of a
+        # defaultdict(RLock)) still ends in threading._CRLock(): intercept there too, looking past
+        # threading's own frames for the caller
+        real_crlock = threading._CRLock
+
+        def crlock(*a, **k):
+            f = sys._getframe(1)
+            while f is not None and f.f_code.co_filename == threading.__file__:
+                f = f.f_back
+            if f is not None and is_adaptix_file(f.f_code.co_filename):
+                return self._make(True, f"{short_file(f.f_code.co_filename)}:{f.f_lineno}")
+            return real_crlock(*a, **k)
+        if real_crlock is not None:
+            threading._CRLock = crlock
+
+    def install(self):
+        """Factories (if not yet) plus a scan for real locks that exist already."""
+        self.install_factories()
+        lock_t = type(_REAL_LOCK())
+        rlock_t = type(_REAL_RLOCK())
+        sim_lock_factory, sim_rlock_factory = self.sim_lock_factory, self.sim_rlock_factory
         for mname, mod in list(sys.modules.items()):
             if mod is None or not (mname == "adaptix" or mname.startswith("adaptix.")):
                 continue
@@ -627,3 +653,11 @@ class LockPatcher:
                     self.replaced.append(f"{name}.{a}")
                 except Exception:  # noqa: BLE001, S110
                     pass
+
+
+GLOBAL_PATCHER = LockPatcher()
+
+
+def install_lock_seam():
+    GLOBAL_PATCHER.install_factories()
+    return GLOBAL_PATCHER
